@@ -1,71 +1,127 @@
-"""Independent crypto reference (prototype): block primitives from nettle via ctypes, every mode written from its standard."""
-import ctypes as C, hashlib, hmac as _hmac, struct
+"""Independent crypto reference for the C10/C13 oracles.
+
+Block primitives (AES, 3DES) come from libnettle through ctypes; every mode, MAC, key wrap, padding and all
+public-key schemes are written here from their standards (FIPS 197/SP 800-38A/B/D, RFC 2104, RFC 3394, RFC 5649,
+RFC 8017, FIPS 186-4, SEC 1, RFC 7748, RFC 8032, RFC 5208/5915/8410) on Python big integers and hashlib.
+Neither OpenSSL nor Botan (what SoftHSM links) is used anywhere.  `python3 refcrypt.py --selftest` checks the
+standard vectors (and, where available, a second opinion from nettle/hogweed and libsodium)."""
+import ctypes as C, ctypes.util, hashlib, hmac as _hmac, os, struct, sys
+
 _n = C.CDLL('libnettle.so.8')
 def _sym(*names):
     for n in names:
         try: return getattr(_n, n)
         except AttributeError: pass
     raise AttributeError(names)
+
+# ------------------------------------------------------------------ block ciphers (nettle)
 class _Blk:
     def __init__(s, key):
-        s.ctxe = C.create_string_buffer(1024); s.ctxd = C.create_string_buffer(1024); s.key = key
+        s.ctxe = C.create_string_buffer(1024); s.ctxd = C.create_string_buffer(1024); s.key = bytes(key)
 class AES(_Blk):
     bs = 16
     def __init__(s, key):
         super().__init__(key); b = {16: '128', 24: '192', 32: '256'}[len(key)]
-        _sym('nettle_aes%s_set_encrypt_key' % b)(s.ctxe, key); _sym('nettle_aes%s_set_decrypt_key' % b)(s.ctxd, key)
+        _sym('nettle_aes%s_set_encrypt_key' % b)(s.ctxe, s.key); _sym('nettle_aes%s_set_decrypt_key' % b)(s.ctxd, s.key)
         s._e = _sym('nettle_aes%s_encrypt' % b); s._d = _sym('nettle_aes%s_decrypt' % b)
-    def enc(s, blk): o = C.create_string_buffer(16); s._e(s.ctxe, C.c_size_t(16), o, blk); return o.raw
-    def dec(s, blk): o = C.create_string_buffer(16); s._d(s.ctxd, C.c_size_t(16), o, blk); return o.raw
+    def enc(s, blk): o = C.create_string_buffer(16); s._e(s.ctxe, C.c_size_t(16), o, bytes(blk)); return o.raw
+    def dec(s, blk): o = C.create_string_buffer(16); s._d(s.ctxd, C.c_size_t(16), o, bytes(blk)); return o.raw
+    def encn(s, data): o = C.create_string_buffer(len(data) or 1); s._e(s.ctxe, C.c_size_t(len(data)), o, bytes(data)); return o.raw[:len(data)]
 class DES3(_Blk):
     bs = 8
     def __init__(s, key):
-        if len(key) == 16: key = key + key[:8]
+        key = bytes(key)
+        if len(key) == 16: key = key + key[:8]          # two-key triple DES: K3 = K1
         if len(key) == 8: key = key * 3
+        if len(key) != 24: raise ValueError('DES3 key length')
         super().__init__(key); _sym('nettle_des3_set_key')(s.ctxe, key); s._e = _sym('nettle_des3_encrypt'); s._d = _sym('nettle_des3_decrypt')
-    def enc(s, blk): o = C.create_string_buffer(8); s._e(s.ctxe, C.c_size_t(8), o, blk); return o.raw
-    def dec(s, blk): o = C.create_string_buffer(8); s._d(s.ctxe, C.c_size_t(8), o, blk); return o.raw
-def xor(a, b): return bytes(x ^ y for x, y in zip(a, b))
-def ecb(c, data, enc=True): return b''.join((c.enc if enc else c.dec)(data[i:i + c.bs]) for i in range(0, len(data), c.bs))
+    def enc(s, blk): o = C.create_string_buffer(8); s._e(s.ctxe, C.c_size_t(8), o, bytes(blk)); return o.raw
+    def dec(s, blk): o = C.create_string_buffer(8); s._d(s.ctxe, C.c_size_t(8), o, bytes(blk)); return o.raw
+    def encn(s, data): o = C.create_string_buffer(len(data) or 1); s._e(s.ctxe, C.c_size_t(len(data)), o, bytes(data)); return o.raw[:len(data)]
+def cipher(kind, key): return AES(key) if kind == 'aes' else DES3(key)
+
+def xor(a, b): return (int.from_bytes(a, 'big') ^ int.from_bytes(b, 'big')).to_bytes(len(a), 'big') if len(a) == len(b) else bytes(x ^ y for x, y in zip(a, b))
+
+# ------------------------------------------------------------------ modes (SP 800-38A), padding (RFC 5652)
+def ecb(c, data, enc=True):
+    if len(data) % c.bs: raise ValueError('ECB needs whole blocks')
+    return b''.join((c.enc if enc else c.dec)(data[i:i + c.bs]) for i in range(0, len(data), c.bs))
 def cbc(c, iv, data, enc=True):
-    out = b''; prev = iv
+    if len(data) % c.bs or len(iv) != c.bs: raise ValueError('CBC needs whole blocks and a block-size IV')
+    out = []; prev = iv
     for i in range(0, len(data), c.bs):
         blk = data[i:i + c.bs]
-        if enc: prev = c.enc(xor(blk, prev)); out += prev
-        else: out += xor(c.dec(blk), prev); prev = blk
-    return out
+        if enc: prev = c.enc(xor(blk, prev)); out.append(prev)
+        else: out.append(xor(c.dec(blk), prev)); prev = blk
+    return b''.join(out)
 def pkcs7_pad(d, bs): n = bs - len(d) % bs; return d + bytes([n]) * n
 def pkcs7_unpad(d, bs):
     if not d or len(d) % bs: return None
     n = d[-1]
     if n == 0 or n > bs or d[-n:] != bytes([n]) * n: return None
     return d[:-n]
+def cbc_pad_encrypt(c, iv, data): return cbc(c, iv, pkcs7_pad(data, c.bs))
+def cbc_pad_decrypt(c, iv, ct):
+    if not ct or len(ct) % c.bs: return None
+    return pkcs7_unpad(cbc(c, iv, ct, False), c.bs)
 def ctr(c, cb, data, counter_bits=128):
-    out = b''; ctrv = int.from_bytes(cb, 'big'); mask = (1 << counter_bits) - 1
-    for i in range(0, len(data), 16):
-        out += xor(data[i:i + 16], c.enc(ctrv.to_bytes(16, 'big'))); ctrv = (ctrv & ~mask) | ((ctrv + 1) & mask)
-    return out
-def _gmul(x, y):  # GF(2^128), NIST SP 800-38D bit order
+    """CTR with the standard incrementing function on the low `counter_bits` bits of the counter block (wraps)."""
+    out = []; ctrv = int.from_bytes(cb, 'big'); mask = (1 << counter_bits) - 1; bs = c.bs
+    for i in range(0, len(data), bs):
+        blk = data[i:i + bs]; out.append(xor(blk, c.enc(ctrv.to_bytes(bs, 'big'))[:len(blk)])); ctrv = (ctrv & ~mask) | ((ctrv + 1) & mask)
+    return b''.join(out)
+def ctr_blocks_before_wrap(cb, counter_bits): return (1 << counter_bits) - (int.from_bytes(cb, 'big') & ((1 << counter_bits) - 1))
+
+# ------------------------------------------------------------------ GCM (SP 800-38D)
+def _gmul(x, y):
     z = 0; v = y
     for i in range(127, -1, -1):
         if (x >> i) & 1: z ^= v
         v = (v >> 1) ^ (0xE1 << 120) if v & 1 else v >> 1
     return z
-def _ghash(h, a, c):
-    def blocks(d): return [int.from_bytes(d[i:i + 16].ljust(16, b'\0'), 'big') for i in range(0, len(d), 16)]
-    y = 0
-    for b in blocks(a) + blocks(c) + [(len(a) * 8 << 64) | (len(c) * 8)]: y = _gmul(y ^ b, h)
-    return y
+class _GH:
+    """GHASH with per-key 8-bit tables (16 x 256 entries) built from the bitwise definition."""
+    def __init__(s, h):
+        s.h = h; s.t = None
+    def _tables(s):
+        # t[pos][byte] = (byte placed at byte position pos of a block) * H
+        p = [0] * 128; v = s.h
+        for i in range(128): p[i] = v; v = (v >> 1) ^ (0xE1 << 120) if v & 1 else v >> 1      # p[i] = x^i * H  (bit i counted from the MSB)
+        t = []
+        for pos in range(16):
+            row = [0] * 256
+            for b in range(1, 256):
+                low = b & -b; k = 7 - (low.bit_length() - 1)    # bit index inside the byte, MSB first
+                row[b] = row[b ^ low] ^ p[pos * 8 + k]
+            t.append(row)
+        s.t = t
+    def mul(s, x):
+        if s.t is None: s._tables()
+        z = 0; t = s.t
+        for pos in range(16): z ^= t[pos][(x >> (120 - 8 * pos)) & 0xff]
+        return z
+    def ghash(s, a, c):
+        small = len(a) + len(c) < 4096 and s.t is None
+        mul = (lambda x: _gmul(x, s.h)) if small else s.mul
+        y = 0
+        for d in (a, c):
+            for i in range(0, len(d), 16): y = mul(y ^ int.from_bytes(d[i:i + 16].ljust(16, b'\0'), 'big'))
+        return mul(y ^ ((len(a) * 8 << 64) | (len(c) * 8)))
 def gcm(c, iv, aad, data, taglen=16, enc=True, tag=None):
-    h = int.from_bytes(c.enc(b'\0' * 16), 'big')
-    j0 = iv + b'\0\0\0\1' if len(iv) == 12 else _ghash(h, b'', iv).to_bytes(16, 'big')
-    inc = lambda b: b[:12] + ((int.from_bytes(b[12:], 'big') + 1) & 0xffffffff).to_bytes(4, 'big')
-    out = b''; cb = inc(j0)
-    for i in range(0, len(data), 16): out += xor(data[i:i + 16], c.enc(cb)); cb = inc(cb)
+    """enc: returns ciphertext || tag[:taglen].  dec: data = ciphertext, tag given; returns plaintext or None."""
+    if len(iv) == 0: raise ValueError('GCM IV must not be empty')
+    g = _GH(int.from_bytes(c.enc(b'\0' * 16), 'big'))
+    j0 = iv + b'\0\0\0\1' if len(iv) == 12 else g.ghash(b'', iv).to_bytes(16, 'big')
+    out = ctr(c, j0[:12] + ((int.from_bytes(j0[12:], 'big') + 1) & 0xffffffff).to_bytes(4, 'big'), data, 32)
     ct = out if enc else data
-    t = xor(_ghash(h, aad, ct).to_bytes(16, 'big'), c.enc(j0))[:taglen]
+    t = xor(g.ghash(aad, ct).to_bytes(16, 'big'), c.enc(j0))[:taglen]
     if enc: return out + t
-    return out if _hmac.compare_digest(t, tag) else None
+    return out if (tag is not None and len(tag) == taglen and _hmac.compare_digest(t, tag)) else None
+def gcm_decrypt(c, iv, aad, blob, taglen=16):
+    if len(blob) < taglen: return None
+    return gcm(c, iv, aad, blob[:len(blob) - taglen], taglen, False, blob[len(blob) - taglen:])
+
+# ------------------------------------------------------------------ CMAC (SP 800-38B), HMAC (RFC 2104), digests
 def cmac(c, data, outlen=None):
     bs = c.bs; R = 0x87 if bs == 16 else 0x1B; L = int.from_bytes(c.enc(b'\0' * bs), 'big'); m = (1 << (bs * 8)) - 1
     def dbl(x): return ((x << 1) & m) ^ (R if x >> (bs * 8 - 1) else 0)
@@ -75,55 +131,512 @@ def cmac(c, data, outlen=None):
     x = b'\0' * bs
     for i in range(n - 1): x = c.enc(xor(x, data[i * bs:(i + 1) * bs]))
     return c.enc(xor(x, last))[:outlen or bs]
-def kw_wrap(c, pt, iv=b'\xA6' * 8):  # RFC 3394
+def digest(h, data): return hashlib.new(h, data).digest()
+def hmac(h, key, data):
+    B = hashlib.new(h).block_size
+    if len(key) > B: key = digest(h, key)
+    key = key.ljust(B, b'\0')
+    return digest(h, bytes(x ^ 0x5c for x in key) + digest(h, bytes(x ^ 0x36 for x in key) + data))
+HASHLEN = {'md5': 16, 'sha1': 20, 'sha224': 28, 'sha256': 32, 'sha384': 48, 'sha512': 64}
+
+# ------------------------------------------------------------------ AES key wrap (RFC 3394) and with padding (RFC 5649)
+def kw_wrap(c, pt, iv=b'\xA6' * 8):
+    if len(pt) % 8 or len(pt) < 16: raise ValueError('RFC 3394 needs n >= 2 blocks of 8 bytes')
     n = len(pt) // 8; a = iv; r = [pt[i * 8:(i + 1) * 8] for i in range(n)]
     for j in range(6):
         for i in range(n):
             b = c.enc(a + r[i]); a = xor(b[:8], (n * j + i + 1).to_bytes(8, 'big')); r[i] = b[8:]
     return a + b''.join(r)
 def kw_unwrap(c, ct, want_iv=b'\xA6' * 8, raw=False):
+    if len(ct) % 8 or len(ct) < 24: return (None, None) if raw else None
     n = len(ct) // 8 - 1; a = ct[:8]; r = [ct[(i + 1) * 8:(i + 2) * 8] for i in range(n)]
     for j in range(5, -1, -1):
         for i in range(n - 1, -1, -1):
             b = c.dec(xor(a, (n * j + i + 1).to_bytes(8, 'big')) + r[i]); a = b[:8]; r[i] = b[8:]
     if raw: return a, b''.join(r)
     return b''.join(r) if a == want_iv else None
-def kwp_wrap(c, pt):  # RFC 5649
+def kwp_wrap(c, pt):
+    if not pt: raise ValueError('RFC 5649 needs at least one byte')
     aiv = b'\xA6\x59\x59\xA6' + len(pt).to_bytes(4, 'big'); p = pt + b'\0' * (-len(pt) % 8)
     return c.enc(aiv + p) if len(p) == 8 else kw_wrap(c, p, aiv)
 def kwp_unwrap(c, ct):
+    if len(ct) % 8 or len(ct) < 16: return None
     if len(ct) == 16: b = c.dec(ct); a, p = b[:8], b[8:]
     else: a, p = kw_unwrap(c, ct, raw=True)
     if a[:4] != b'\xA6\x59\x59\xA6': return None
     n = int.from_bytes(a[4:], 'big')
     if not (len(p) - 8 < n <= len(p)) or any(p[n:]): return None
     return p[:n]
-def kcv(c): return c.enc(b'\0' * c.bs)[:3]
-# ---- RSA (big integers)
+
+# ------------------------------------------------------------------ key check values, DES parity
+def kcv(kind, key):
+    """PKCS#11 CKA_CHECK_VALUE: first 3 bytes of the ECB encryption of one zero block (AES, DES, DES2, DES3);
+    first 3 bytes of SHA-1 of the value for generic secrets."""
+    if kind == 'generic': return hashlib.sha1(key).digest()[:3]
+    c = cipher('aes' if kind == 'aes' else 'des3', key); return c.enc(b'\0' * c.bs)[:3]
+def des_odd_parity(key): return bytes((b & 0xFE) | ((bin(b >> 1).count('1') + 1) & 1) for b in key)
+
+# ------------------------------------------------------------------ numbers
 def i2osp(x, n): return x.to_bytes(n, 'big')
-def mgf1(seed, n, h): return b''.join(hashlib.new(h, seed + struct.pack('>I', i)).digest() for i in range(-(-n // hashlib.new(h).digest_size)))[:n]
-DIGESTINFO = {'md5': '3020300c06082a864886f70d020505000410', 'sha1': '3021300906052b0e03021a05000414', 'sha224': '302d300d06096086480165030402040500041c', 'sha256': '3031300d060960864801650304020105000420', 'sha384': '3041300d060960864801650304020205000430', 'sha512': '3051300d060960864801650304020305000440'}
-def pkcs1_sig_em(k, msg_or_digestinfo, h=None):
-    t = bytes.fromhex(DIGESTINFO[h]) + hashlib.new(h, msg_or_digestinfo).digest() if h else msg_or_digestinfo
-    return b'\0\1' + b'\xff' * (k - 3 - len(t)) + b'\0' + t
-def pss_verify(n, e, sig, mhash, h, slen):
-    k = (n.bit_length() + 7) // 8; embits = n.bit_length() - 1; emlen = (embits + 7) // 8
-    if len(sig) != k: return False
-    m = pow(int.from_bytes(sig, 'big'), e, n)
-    if m >= n: return False
-    em = m.to_bytes(k, 'big')[k - emlen:]; hl = hashlib.new(h).digest_size
-    if emlen < hl + slen + 2 or em[-1] != 0xbc: return False
-    mdb, H = em[:emlen - hl - 1], em[emlen - hl - 1:-1]
-    db = bytearray(xor(mdb, mgf1(H, emlen - hl - 1, h))); db[0] &= 0xff >> (8 * emlen - embits)
-    if mdb[0] >> (8 - (8 * emlen - embits)) if 8 * emlen - embits else 0: return False
-    if bytes(db[:emlen - hl - slen - 2]) != b'\0' * (emlen - hl - slen - 2) or db[emlen - hl - slen - 2] != 1: return False
-    return hashlib.new(h, b'\0' * 8 + mhash + bytes(db[-slen:] if slen else b'')).digest() == H
-def oaep_decode(em, h='sha1', label=b''):
-    hl = hashlib.new(h).digest_size; k = len(em)
-    if k < 2 * hl + 2 or em[0] != 0: return None
-    ms, mdb = em[1:1 + hl], em[1 + hl:]; seed = xor(ms, mgf1(mdb, hl, h)); db = xor(mdb, mgf1(seed, k - hl - 1, h))
-    if db[:hl] != hashlib.new(h, label).digest(): return None
-    i = hl
-    while i < len(db) and db[i] == 0: i += 1
-    if i >= len(db) or db[i] != 1: return None
-    return db[i + 1:]
+def os2ip(b): return int.from_bytes(b, 'big')
+def blen(x): return (x.bit_length() + 7) // 8
+def inv(a, m): return pow(a, -1, m)
+_SMALL = [p for p in range(2, 2000) if all(p % q for q in range(2, int(p ** .5) + 1))]
+def is_prime(n, rounds=24, rnd=None):
+    if n < 2: return False
+    for p in _SMALL:
+        if n % p == 0: return n == p
+    d = n - 1; s = 0
+    while d % 2 == 0: d //= 2; s += 1
+    import random; r = rnd or random.Random(n & 0xffffffff)
+    for _ in range(rounds):
+        a = r.randrange(2, n - 1); x = pow(a, d, n)
+        if x in (1, n - 1): continue
+        for _ in range(s - 1):
+            x = x * x % n
+            if x == n - 1: break
+        else: return False
+    return True
+def _rand_int(rnd, lo, hi):
+    """uniform in [lo, hi]; rnd is a random.Random or None (os.urandom)"""
+    if rnd is not None: return rnd.randrange(lo, hi + 1)
+    span = hi - lo + 1; k = blen(span) + 8
+    return lo + os2ip(os.urandom(k)) % span
+def _rand_bytes(rnd, n): return bytes(rnd.getrandbits(8) for _ in range(n)) if rnd is not None else os.urandom(n)
+
+# ------------------------------------------------------------------ minimal DER
+class DERError(ValueError): pass
+def der_len(n):
+    if n < 0x80: return bytes([n])
+    b = n.to_bytes(blen(n), 'big'); return bytes([0x80 | len(b)]) + b
+def der(tag, content): return bytes([tag]) + der_len(len(content)) + content
+def der_int(x):
+    if x < 0: raise ValueError
+    b = x.to_bytes(max(1, blen(x)), 'big')
+    return der(2, (b'\0' + b) if b[0] & 0x80 else b)
+def der_seq(*items): return der(0x30, b''.join(items))
+def der_octets(b): return der(4, bytes(b))
+def der_bits(b): return der(3, b'\0' + bytes(b))
+def der_null(): return b'\x05\x00'
+def der_oid(dotted):
+    a = [int(x) for x in dotted.split('.')]; out = bytes([a[0] * 40 + a[1]])
+    for v in a[2:]:
+        e = [v & 0x7f]; v >>= 7
+        while v: e.append(0x80 | (v & 0x7f)); v >>= 7
+        out += bytes(reversed(e))
+    return der(6, out)
+def der_printable(s): return der(0x13, s.encode())
+def der_read(b, off=0, strict=True):
+    """-> (tag, content, next offset); definite lengths only; minimal length encoding when strict"""
+    if off + 2 > len(b): raise DERError('truncated header')
+    tag = b[off]; l = b[off + 1]; off += 2
+    if tag & 0x1f == 0x1f: raise DERError('high tag numbers not supported')
+    if l & 0x80:
+        k = l & 0x7f
+        if k == 0 or k > 4 or off + k > len(b): raise DERError('bad length')
+        l = os2ip(b[off:off + k]); off += k
+        if strict and (l < 0x80 or b[off - k] == 0): raise DERError('non-minimal length')
+    if off + l > len(b): raise DERError('content overruns the buffer')
+    return tag, b[off:off + l], off + l
+def der_items(content, strict=True):
+    out = []; off = 0
+    while off < len(content): t, c, off = der_read(content, off, strict); out.append((t, c))
+    return out
+def der_expect(item, tag):
+    if item[0] != tag: raise DERError('expected tag 0x%02x, got 0x%02x' % (tag, item[0]))
+    return item[1]
+def der_get_int(item):
+    c = der_expect(item, 2)
+    if not c or c[0] & 0x80: raise DERError('negative or empty INTEGER')
+    return os2ip(c)
+def der_top(b, tag=0x30, strict=True):
+    t, c, end = der_read(b, 0, strict)
+    if t != tag: raise DERError('outer tag 0x%02x' % t)
+    if end != len(b): raise DERError('trailing bytes')
+    return c
+
+# ------------------------------------------------------------------ RSA (RFC 8017)
+def mgf1(seed, n, h):
+    hl = hashlib.new(h).digest_size
+    return b''.join(hashlib.new(h, seed + struct.pack('>I', i)).digest() for i in range(-(-n // hl)))[:n]
+DIGESTINFO = {'md5': '3020300c06082a864886f70d020505000410', 'sha1': '3021300906052b0e03021a05000414', 'sha224': '302d300d06096086480165030402040500041c',
+              'sha256': '3031300d060960864801650304020105000420', 'sha384': '3041300d060960864801650304020205000430', 'sha512': '3051300d060960864801650304020305000440'}
+class RSAKey:
+    def __init__(s, n, e, d=None, p=None, q=None):
+        s.n = n; s.e = e; s.d = d; s.p = p; s.q = q; s.k = blen(n); s.bits = n.bit_length()
+        if p and q and d:
+            if p < q: s.p, s.q = q, p                                     # PKCS#1: coefficient = q^-1 mod p
+            s.dp = d % (s.p - 1); s.dq = d % (s.q - 1); s.qinv = inv(s.q, s.p)
+    @staticmethod
+    def generate(bits, rnd, e=65537):
+        def prime(nb):
+            while True:
+                c = rnd.getrandbits(nb) | (3 << (nb - 2)) | 1
+                if c % e != 1 and is_prime(c, 16, rnd): return c
+        while True:
+            p = prime((bits + 1) // 2); q = prime(bits // 2); n = p * q
+            if p == q or n.bit_length() != bits: continue
+            lam = (p - 1) * (q - 1)
+            try: d = inv(e, lam)
+            except ValueError: continue
+            return RSAKey(n, e, d, p, q)
+    def public(s, m):
+        if not 0 <= m < s.n: raise ValueError('message representative out of range')
+        return pow(m, s.e, s.n)
+    def private(s, c):
+        if not 0 <= c < s.n: raise ValueError('ciphertext representative out of range')
+        if s.p:
+            m1 = pow(c, s.dp, s.p); m2 = pow(c, s.dq, s.q); h = (s.qinv * (m1 - m2)) % s.p; return m2 + s.q * h
+        return pow(c, s.d, s.n)
+    # raw (CKM_RSA_X_509): the input is left-padded with zeros to k bytes
+    def raw_private(s, data): return i2osp(s.private(os2ip(data)), s.k)
+    def raw_public(s, data): return i2osp(s.public(os2ip(data)), s.k)
+    # PKCS#1 v1.5 signatures
+    def em_pkcs1_sig(s, t):
+        if len(t) > s.k - 11: raise ValueError('data too long for PKCS#1 v1.5')
+        return b'\0\1' + b'\xff' * (s.k - 3 - len(t)) + b'\0' + t
+    def sign_pkcs1(s, data, h=None):
+        """h None: CKM_RSA_PKCS (data is used as the DigestInfo as is); else hash-then-sign"""
+        t = (bytes.fromhex(DIGESTINFO[h]) + digest(h, data)) if h else data
+        return i2osp(s.private(os2ip(s.em_pkcs1_sig(t))), s.k)
+    def verify_pkcs1(s, data, sig, h=None):
+        if len(sig) != s.k or os2ip(sig) >= s.n: return False
+        t = (bytes.fromhex(DIGESTINFO[h]) + digest(h, data)) if h else data
+        try: return i2osp(s.public(os2ip(sig)), s.k) == s.em_pkcs1_sig(t)
+        except ValueError: return False
+    # PKCS#1 v1.5 encryption
+    def encrypt_pkcs1(s, msg, rnd=None):
+        if len(msg) > s.k - 11: raise ValueError('message too long')
+        ps = b''
+        while len(ps) < s.k - 3 - len(msg): ps += bytes(b for b in _rand_bytes(rnd, s.k) if b)
+        return i2osp(s.public(os2ip(b'\0\2' + ps[:s.k - 3 - len(msg)] + b'\0' + msg)), s.k)
+    def decrypt_pkcs1(s, ct):
+        if len(ct) != s.k or os2ip(ct) >= s.n: return None
+        em = i2osp(s.private(os2ip(ct)), s.k)
+        if em[:2] != b'\0\2': return None
+        i = em.find(b'\0', 2)
+        if i < 10: return None                                            # no separator, or PS shorter than 8
+        return em[i + 1:]
+    # OAEP
+    def encrypt_oaep(s, msg, h='sha1', label=b'', mgf=None, rnd=None):
+        mgf = mgf or h; hl = hashlib.new(h).digest_size
+        if len(msg) > s.k - 2 * hl - 2: raise ValueError('message too long')
+        db = digest(h, label) + b'\0' * (s.k - len(msg) - 2 * hl - 2) + b'\1' + msg; seed = _rand_bytes(rnd, hl)
+        mdb = xor(db, mgf1(seed, s.k - hl - 1, mgf)); ms = xor(seed, mgf1(mdb, hl, mgf))
+        return i2osp(s.public(os2ip(b'\0' + ms + mdb)), s.k)
+    def decrypt_oaep(s, ct, h='sha1', label=b'', mgf=None):
+        mgf = mgf or h; hl = hashlib.new(h).digest_size
+        if len(ct) != s.k or s.k < 2 * hl + 2 or os2ip(ct) >= s.n: return None
+        em = i2osp(s.private(os2ip(ct)), s.k)
+        if em[0] != 0: return None
+        ms, mdb = em[1:1 + hl], em[1 + hl:]; seed = xor(ms, mgf1(mdb, hl, mgf)); db = xor(mdb, mgf1(seed, s.k - hl - 1, mgf))
+        if db[:hl] != digest(h, label): return None
+        i = hl
+        while i < len(db) and db[i] == 0: i += 1
+        if i >= len(db) or db[i] != 1: return None
+        return db[i + 1:]
+    # PSS
+    def pss_max_salt(s, h): return (s.bits - 1 + 7) // 8 - hashlib.new(h).digest_size - 2
+    def em_pss(s, mhash, h, slen, salt=None, mgf=None, rnd=None):
+        mgf = mgf or h; embits = s.bits - 1; emlen = (embits + 7) // 8; hl = hashlib.new(h).digest_size
+        if len(mhash) != hl: raise ValueError('hash length')
+        if emlen < hl + slen + 2: raise ValueError('encoding error: salt too long')
+        salt = _rand_bytes(rnd, slen) if salt is None else salt
+        H = digest(h, b'\0' * 8 + mhash + salt); db = b'\0' * (emlen - slen - hl - 2) + b'\1' + salt
+        mdb = bytearray(xor(db, mgf1(H, emlen - hl - 1, mgf))); mdb[0] &= 0xff >> (8 * emlen - embits)
+        return bytes(mdb) + H + b'\xbc'
+    def sign_pss(s, data, h, slen, prehashed=False, salt=None, mgf=None, rnd=None):
+        mh = data if prehashed else digest(h, data)
+        return i2osp(s.private(os2ip(s.em_pss(mh, h, slen, salt, mgf, rnd))), s.k)
+    def verify_pss(s, data, sig, h, slen, prehashed=False, mgf=None):
+        """strict RFC 8017 9.1.2 with the stated salt length"""
+        mgf = mgf or h; mh = data if prehashed else digest(h, data); hl = hashlib.new(h).digest_size
+        if len(sig) != s.k or len(mh) != hl: return False
+        m = os2ip(sig)
+        if m >= s.n: return False
+        embits = s.bits - 1; emlen = (embits + 7) // 8; m = s.public(m)
+        if m.bit_length() > embits: return False
+        em = i2osp(m, emlen)
+        if emlen < hl + slen + 2 or em[-1] != 0xbc: return False
+        mdb, H = em[:emlen - hl - 1], em[emlen - hl - 1:-1]; zb = 8 * emlen - embits
+        if zb and mdb[0] >> (8 - zb): return False
+        db = bytearray(xor(mdb, mgf1(H, emlen - hl - 1, mgf))); db[0] &= 0xff >> zb
+        ps = emlen - hl - slen - 2
+        if any(db[:ps]) or db[ps] != 1: return False
+        return digest(h, b'\0' * 8 + mh + bytes(db[ps + 1:])) == H
+    # PKCS#1 / PKCS#8
+    def pkcs1_private(s):
+        return der_seq(der_int(0), der_int(s.n), der_int(s.e), der_int(s.d), der_int(s.p), der_int(s.q), der_int(s.dp), der_int(s.dq), der_int(s.qinv))
+    def pkcs8(s): return der_seq(der_int(0), der_seq(der_oid('1.2.840.113549.1.1.1'), der_null()), der_octets(s.pkcs1_private()))
+
+# ------------------------------------------------------------------ DSA (FIPS 186-4), DH (PKCS #3)
+def bits2int(b, qbits):
+    """leftmost min(len, qbits) bits of b as an integer (FIPS 186-4 4.6 / SEC 1 4.1.3)"""
+    z = os2ip(b); extra = len(b) * 8 - qbits
+    return z >> extra if extra > 0 else z
+class DSAKey:
+    def __init__(s, p, q, g, y=None, x=None):
+        s.p = p; s.q = q; s.g = g; s.x = x; s.y = y if y is not None else pow(g, x, p); s.ql = blen(q)
+    @staticmethod
+    def generate_params(L, N, rnd):
+        while True:
+            q = rnd.getrandbits(N) | (1 << (N - 1)) | 1
+            if is_prime(q, 16, rnd): break
+        while True:
+            x = rnd.getrandbits(L) | (1 << (L - 1)); p = x - (x % (2 * q)) + 1
+            if p.bit_length() == L and is_prime(p, 16, rnd): break
+        h = 2
+        while True:
+            g = pow(h, (p - 1) // q, p)
+            if g > 1: break
+            h += 1
+        return p, q, g
+    def sign(s, hashed, k=None, rnd=None):
+        """-> r || s, each len(q) bytes (the PKCS#11 format)"""
+        z = bits2int(hashed, s.q.bit_length())
+        while True:
+            kk = k or _rand_int(rnd, 1, s.q - 1); r = pow(s.g, kk, s.p) % s.q; ss = inv(kk, s.q) * (z + s.x * r) % s.q
+            if r and ss: return i2osp(r, s.ql) + i2osp(ss, s.ql)
+            if k: raise ValueError('bad k')
+    def verify(s, hashed, sig):
+        if len(sig) != 2 * s.ql: return False
+        r, ss = os2ip(sig[:s.ql]), os2ip(sig[s.ql:])
+        if not (0 < r < s.q and 0 < ss < s.q): return False
+        w = inv(ss, s.q); z = bits2int(hashed, s.q.bit_length())
+        return (pow(s.g, z * w % s.q, s.p) * pow(s.y, r * w % s.q, s.p) % s.p) % s.q == r
+    def pkcs8(s): return der_seq(der_int(0), der_seq(der_oid('1.2.840.10040.4.1'), der_seq(der_int(s.p), der_int(s.q), der_int(s.g))), der_octets(der_int(s.x)))
+class DHKey:
+    def __init__(s, p, g, x=None, y=None):
+        s.p = p; s.g = g; s.x = x; s.y = y if y is not None else pow(g, x, p); s.k = blen(p)
+    def derive(s, peer_y):
+        """PKCS #3 shared secret as a string of len(p) bytes (leading zeros kept, as CKM_DH_PKCS_DERIVE specifies)"""
+        if not 1 < peer_y < s.p - 1: raise ValueError('peer value out of range')
+        return i2osp(pow(peer_y, s.x, s.p), s.k)
+    def pkcs8(s): return der_seq(der_int(0), der_seq(der_oid('1.2.840.113549.1.3.1'), der_seq(der_int(s.p), der_int(s.g))), der_octets(der_int(s.x)))
+def modp_prime(bits, c):
+    """RFC 2409 / RFC 3526 Oakley primes: p = 2^n - 2^(n-64) - 1 + 2^64 * (floor(2^(n-130) * pi) + c)"""
+    prec = bits + 64; one = 1 << prec
+    def atan_inv(x):                                                        # arctan(1/x) * 2^prec
+        t = one // x; tot = t; x2 = x * x; k = 3; sg = -1
+        while t: t //= x2; tot += sg * (t // k); k += 2; sg = -sg
+        return tot
+    pi = 4 * (4 * atan_inv(5) - atan_inv(239))                              # Machin
+    fl = (pi << (bits - 130)) >> prec
+    return (1 << bits) - (1 << (bits - 64)) - 1 + (1 << 64) * (fl + c)
+
+# ------------------------------------------------------------------ short Weierstrass curves (SEC 1 / FIPS 186-4), a = -3
+class Curve:
+    def __init__(s, name, oid, p, b, gx, gy, n):
+        s.name = name; s.oid = oid; s.p = p; s.a = p - 3; s.b = b; s.g = (gx, gy); s.n = n; s.flen = blen(p); s.nlen = blen(n); s.params = der_oid(oid)
+    def on_curve(s, P):
+        if P is None: return True
+        x, y = P; return 0 <= x < s.p and 0 <= y < s.p and (y * y - (x * x * x + s.a * x + s.b)) % s.p == 0
+    # Jacobian arithmetic (X, Y, Z), infinity = Z == 0
+    def _dbl(s, P):
+        X, Y, Z = P; p = s.p
+        if not Z or not Y: return (1, 1, 0)
+        YY = Y * Y % p; S = 4 * X * YY % p; ZZ = Z * Z % p; M = 3 * (X - ZZ) * (X + ZZ) % p        # a = -3
+        X3 = (M * M - 2 * S) % p; Y3 = (M * (S - X3) - 8 * YY * YY) % p; Z3 = 2 * Y * Z % p
+        return (X3, Y3, Z3)
+    def _add(s, P, Q):
+        if not P[2]: return Q
+        if not Q[2]: return P
+        p = s.p; X1, Y1, Z1 = P; X2, Y2, Z2 = Q
+        Z1Z1 = Z1 * Z1 % p; Z2Z2 = Z2 * Z2 % p; U1 = X1 * Z2Z2 % p; U2 = X2 * Z1Z1 % p
+        S1 = Y1 * Z2 * Z2Z2 % p; S2 = Y2 * Z1 * Z1Z1 % p
+        if U1 == U2: return s._dbl(P) if S1 == S2 else (1, 1, 0)
+        H = (U2 - U1) % p; R = (S2 - S1) % p; HH = H * H % p; HHH = H * HH % p; V = U1 * HH % p
+        X3 = (R * R - HHH - 2 * V) % p; Y3 = (R * (V - X3) - S1 * HHH) % p; Z3 = H * Z1 * Z2 % p
+        return (X3, Y3, Z3)
+    def _aff(s, P):
+        if not P[2]: return None
+        zi = inv(P[2], s.p); z2 = zi * zi % s.p; return (P[0] * z2 % s.p, P[1] * z2 * zi % s.p)
+    def mul(s, k, P):
+        if P is None: return None
+        if k < 0: raise ValueError
+        R = (1, 1, 0); Q = (P[0], P[1], 1)
+        for bit in bin(k)[2:]:
+            R = s._dbl(R)
+            if bit == '1': R = s._add(R, Q)
+        return s._aff(R)
+    def add(s, P, Q):
+        if P is None: return Q
+        if Q is None: return P
+        return s._aff(s._add((P[0], P[1], 1), (Q[0], Q[1], 1)))
+    def mul2(s, u1, u2, Q):
+        """u1*G + u2*Q (Shamir)"""
+        G = (s.g[0], s.g[1], 1); Qj = (Q[0], Q[1], 1); GQ = s._add(G, Qj); R = (1, 1, 0)
+        for i in range(max(u1.bit_length(), u2.bit_length()) - 1, -1, -1):
+            R = s._dbl(R); a = (u1 >> i) & 1; b = (u2 >> i) & 1
+            if a and b: R = s._add(R, GQ)
+            elif a: R = s._add(R, G)
+            elif b: R = s._add(R, Qj)
+        return s._aff(R)
+    def encode_point(s, P): return b'\4' + i2osp(P[0], s.flen) + i2osp(P[1], s.flen)
+    def decode_point(s, b):
+        if len(b) == 2 * s.flen + 1 and b[0] == 4:
+            P = (os2ip(b[1:1 + s.flen]), os2ip(b[1 + s.flen:]))
+        elif len(b) == s.flen + 1 and b[0] in (2, 3):
+            x = os2ip(b[1:]); y2 = (x * x * x + s.a * x + s.b) % s.p; y = pow(y2, (s.p + 1) // 4, s.p)          # all three primes are 3 mod 4
+            if y * y % s.p != y2: raise ValueError('not on the curve')
+            P = (x, y if (y & 1) == (b[0] & 1) else s.p - y)
+        else: raise ValueError('bad point encoding')
+        if not s.on_curve(P): raise ValueError('not on the curve')
+        return P
+P256 = Curve('P-256', '1.2.840.10045.3.1.7', 2**256 - 2**224 + 2**192 + 2**96 - 1,
+             0x5ac635d8aa3a93e7b3ebbd55769886bc651d06b0cc53b0f63bce3c3e27d2604b,
+             0x6b17d1f2e12c4247f8bce6e563a440f277037d812deb33a0f4a13945d898c296, 0x4fe342e2fe1a7f9b8ee7eb4a7c0f9e162bce33576b315ececbb6406837bf51f5,
+             0xffffffff00000000ffffffffffffffffbce6faada7179e84f3b9cac2fc632551)
+P384 = Curve('P-384', '1.3.132.0.34', 2**384 - 2**128 - 2**96 + 2**32 - 1,
+             0xb3312fa7e23ee7e4988e056be3f82d19181d9c6efe8141120314088f5013875ac656398d8a2ed19d2a85c8edd3ec2aef,
+             0xaa87ca22be8b05378eb1c71ef320ad746e1d3b628ba79b9859f741e082542a385502f25dbf55296c3a545e3872760ab7,
+             0x3617de4a96262c6f5d9e98bf9292dc29f8f41dbd289a147ce9da3113b5f0b8c00a60b1ce1d7e819d7a431d7c90ea0e5f,
+             0xffffffffffffffffffffffffffffffffffffffffffffffffc7634d81f4372ddf581a0db248b0a77aecec196accc52973)
+P521 = Curve('P-521', '1.3.132.0.35', 2**521 - 1,
+             0x051953eb9618e1c9a1f929a21a0b68540eea2da725b99b315f3b8b489918ef109e156193951ec7e937b1652c0bd3bb1bf073573df883d2c34f1ef451fd46b503f00,
+             0xc6858e06b70404e9cd9e3ecb662395b4429c648139053fb521f828af606b4d3dbaa14b5e77efe75928fe1dc127a2ffa8de3348b3c1856a429bf97e7e31c2e5bd66,
+             0x11839296a789a3bc0045c8a5fb42c7d1bd998f54449579b446817afbd17273e662c97ee72995ef42640c550b9013fad0761353c7086a272c24088be94769fd16650,
+             int('1' + 'f' * 64 + 'fa51868783bf2f966b7fcc0148f709a5d03bb5c9b8899c47aebb6fb71e91386409', 16))
+CURVES = {'P-256': P256, 'P-384': P384, 'P-521': P521}
+class ECKey:
+    def __init__(s, curve, d=None, Q=None):
+        s.c = curve; s.d = d; s.Q = Q if Q is not None else curve.mul(d, curve.g)
+    def sign(s, hashed, k=None, rnd=None):
+        """ECDSA over an already hashed message -> r || s, each len(n) bytes (PKCS#11 format)"""
+        c = s.c; z = bits2int(hashed, c.n.bit_length())
+        while True:
+            kk = k or _rand_int(rnd, 1, c.n - 1); r = c.mul(kk, c.g)[0] % c.n; ss = inv(kk, c.n) * (z + r * s.d) % c.n
+            if r and ss: return i2osp(r, c.nlen) + i2osp(ss, c.nlen)
+            if k: raise ValueError('bad k')
+    def verify(s, hashed, sig):
+        c = s.c
+        if len(sig) != 2 * c.nlen: return False
+        r, ss = os2ip(sig[:c.nlen]), os2ip(sig[c.nlen:])
+        if not (0 < r < c.n and 0 < ss < c.n): return False
+        w = inv(ss, c.n); z = bits2int(hashed, c.n.bit_length()); R = c.mul2(z * w % c.n, r * w % c.n, s.Q)
+        return R is not None and R[0] % c.n == r
+    def ecdh(s, peerQ):
+        """SEC 1 3.3.1 (no cofactor, h = 1): x coordinate of d * Q as a field-size string"""
+        if peerQ is None or not s.c.on_curve(peerQ): raise ValueError('invalid peer point')
+        P = s.c.mul(s.d, peerQ)
+        if P is None: raise ValueError('infinity')
+        return i2osp(P[0], s.c.flen)
+    def point(s): return s.c.encode_point(s.Q)
+    def sec1(s, with_params=False, with_public=True):
+        items = [der_int(1), der_octets(i2osp(s.d, s.c.nlen))]
+        if with_params: items.append(der(0xA0, s.c.params))
+        if with_public: items.append(der(0xA1, der_bits(s.point())))
+        return der_seq(*items)
+    def pkcs8(s, **kw): return der_seq(der_int(0), der_seq(der_oid('1.2.840.10045.2.1'), s.c.params), der_octets(s.sec1(**kw)))
+def rfc6979_k(q, x, h1, h):
+    """deterministic nonce (only used by the self-test to reproduce the RFC 6979 vectors)"""
+    ql = blen(q); qb = q.bit_length(); hl = hashlib.new(h).digest_size
+    def b2o(b): z = bits2int(b, qb) % q; return i2osp(z, ql)
+    V = b'\1' * hl; K = b'\0' * hl; xo = i2osp(x, ql)
+    K = _hmac.new(K, V + b'\0' + xo + b2o(h1), h).digest(); V = _hmac.new(K, V, h).digest()
+    K = _hmac.new(K, V + b'\1' + xo + b2o(h1), h).digest(); V = _hmac.new(K, V, h).digest()
+    while True:
+        T = b''
+        while len(T) < ql: V = _hmac.new(K, V, h).digest(); T += V
+        k = bits2int(T, qb)
+        if 0 < k < q: return k
+        K = _hmac.new(K, V + b'\0', h).digest(); V = _hmac.new(K, V, h).digest()
+
+# ------------------------------------------------------------------ Edwards curves (RFC 8032) and Montgomery ladders (RFC 7748)
+class _Ed:
+    """twisted Edwards a*x^2 + y^2 = 1 + d*x^2*y^2 in affine coordinates via projective (X:Y:Z) add from the addition law"""
+    def on_curve(s, P): x, y = P; return (s.a * x * x + y * y - 1 - s.d * x * x * y * y) % s.p == 0
+    def add(s, P, Q):
+        p = s.p; X1, Y1, Z1 = P; X2, Y2, Z2 = Q
+        A = Z1 * Z2 % p; B = A * A % p; Cc = X1 * X2 % p; D = Y1 * Y2 % p; E = s.d * Cc * D % p; F = (B - E) % p; G = (B + E) % p
+        X3 = A * F * ((X1 + Y1) * (X2 + Y2) - Cc - D) % p; Y3 = A * G * (D - s.a * Cc) % p; Z3 = F * G % p
+        return (X3, Y3, Z3)
+    def mul(s, k, P):
+        R = (0, 1, 1); Q = (P[0], P[1], 1)
+        for bit in bin(k)[2:]:
+            R = s.add(R, R)
+            if bit == '1': R = s.add(R, Q)
+        zi = inv(R[2], s.p); return (R[0] * zi % s.p, R[1] * zi % s.p)
+    def addaff(s, P, Q):
+        R = s.add((P[0], P[1], 1), (Q[0], Q[1], 1)); zi = inv(R[2], s.p); return (R[0] * zi % s.p, R[1] * zi % s.p)
+    def encode(s, P): return i2osp(P[1] | ((P[0] & 1) << (8 * s.blen - 1)), s.blen)[::-1]
+    def decode(s, b):
+        if len(b) != s.blen: return None
+        v = int.from_bytes(b, 'little'); sign = v >> (8 * s.blen - 1); y = v & ((1 << (8 * s.blen - 1)) - 1)
+        if y >= s.p: return None
+        x = s.recover_x(y, sign)
+        return None if x is None else (x, y)
+class _Ed25519(_Ed):
+    name = 'Ed25519'; oid = '1.3.101.112'; pname = 'edwards25519'
+    p = 2**255 - 19; a = p - 1; d = (-121665 * pow(121666, -1, p)) % p; L = 2**252 + 27742317777372353535851937790883648493; blen = 32
+    def __init__(s): y = 4 * inv(5, s.p) % s.p; s.B = (s.recover_x(y, 0), y)
+    def recover_x(s, y, sign):
+        p = s.p; x2 = (y * y - 1) * inv(s.d * y * y + 1, p) % p
+        if x2 == 0: return None if sign else 0
+        x = pow(x2, (p + 3) // 8, p)
+        if (x * x - x2) % p: x = x * pow(2, (p - 1) // 4, p) % p
+        if (x * x - x2) % p: return None
+        return p - x if (x & 1) != sign else x
+    def H(s, data): return hashlib.sha512(data).digest()
+    def secret_expand(s, sk):
+        h = s.H(sk); a = int.from_bytes(h[:32], 'little'); a &= (1 << 254) - 8; a |= 1 << 254; return a, h[32:]
+    def dom(s, ctx=b''): return b''
+class _Ed448(_Ed):
+    name = 'Ed448'; oid = '1.3.101.113'; pname = 'edwards448'
+    p = 2**448 - 2**224 - 1; a = 1; d = p - 39081; L = 2**446 - 13818066809895115352007386748515426880336692474882178609894547503885; blen = 57
+    def __init__(s):
+        s.B = (224580040295924300187604334099896036246789641632564134246125461686950415467406032909029192869357953282578032075146446173674602635247710,
+               298819210078481492676017930443930673437544040154080242095928241372331506189835876003536878655418784733982303233503462500531545062832660)
+    def recover_x(s, y, sign):
+        p = s.p; x2 = (y * y - 1) * inv(s.d * y * y - 1, p) % p
+        if x2 == 0: return None if sign else 0
+        x = pow(x2, (p + 1) // 4, p)
+        if (x * x - x2) % p: return None
+        return p - x if (x & 1) != sign else x
+    def H(s, data): return hashlib.shake_256(data).digest(114)
+    def secret_expand(s, sk):
+        h = s.H(sk); a = int.from_bytes(h[:57], 'little'); a &= ((1 << 448) - 1) & ~3; a |= 1 << 447; return a, h[57:]
+    def dom(s, ctx=b''): return b'SigEd448' + bytes([0, len(ctx)]) + ctx
+ED25519 = _Ed25519(); ED448 = _Ed448(); EDCURVES = {'Ed25519': ED25519, 'Ed448': ED448}
+class EdKey:
+    def __init__(s, curve, sk=None, pk=None):
+        s.c = curve; s.sk = sk
+        if sk is not None: s.a, s.prefix = curve.secret_expand(sk); s.pk = curve.encode(curve.mul(s.a, curve.B))
+        else: s.pk = pk
+    def sign(s, msg):
+        c = s.c; r = int.from_bytes(c.H(c.dom() + s.prefix + msg), 'little') % c.L; Rs = c.encode(c.mul(r, c.B))
+        h = int.from_bytes(c.H(c.dom() + Rs + s.pk + msg), 'little') % c.L
+        return Rs + ((r + h * s.a) % c.L).to_bytes(c.blen, 'little')
+    def verify(s, msg, sig):
+        c = s.c
+        if len(sig) != 2 * c.blen: return False
+        A = c.decode(s.pk); R = c.decode(sig[:c.blen]); S = int.from_bytes(sig[c.blen:], 'little')
+        if A is None or R is None or S >= c.L: return False
+        h = int.from_bytes(c.H(c.dom() + sig[:c.blen] + s.pk + msg), 'little') % c.L
+        return c.mul(S, c.B) == c.addaff(R, c.mul(h, A))               # cofactorless equation [S]B = R + [h]A (RFC 8032 allows either)
+    def pkcs8(s): return der_seq(der_int(0), der_seq(der_oid(s.c.oid)), der_octets(der_octets(s.sk)))
+def _ladder(k, u, p, bits, a24):
+    x1 = u; x2, z2, x3, z3 = 1, 0, u, 1; swap = 0
+    for t in range(bits - 1, -1, -1):
+        kt = (k >> t) & 1; swap ^= kt
+        if swap: x2, x3, z2, z3 = x3, x2, z3, z2
+        swap = kt
+        A = (x2 + z2) % p; AA = A * A % p; B = (x2 - z2) % p; BB = B * B % p; E = (AA - BB) % p; Cc = (x3 + z3) % p; D = (x3 - z3) % p
+        DA = D * A % p; CB = Cc * B % p; x3 = (DA + CB) ** 2 % p; z3 = x1 * (DA - CB) ** 2 % p; x2 = AA * BB % p; z2 = E * (AA + a24 * E) % p
+    if swap: x2, x3, z2, z3 = x3, x2, z3, z2
+    return x2 * pow(z2, p - 2, p) % p
+def x25519(k, u):
+    kk = bytearray(k); kk[0] &= 248; kk[31] &= 127; kk[31] |= 64; uu = int.from_bytes(u, 'little') & ((1 << 255) - 1)
+    return _ladder(int.from_bytes(kk, 'little'), uu % (2**255 - 19), 2**255 - 19, 255, 121665).to_bytes(32, 'little')
+def x448(k, u):
+    kk = bytearray(k); kk[0] &= 252; kk[55] |= 128
+    return _ladder(int.from_bytes(kk, 'little'), int.from_bytes(u, 'little') % (2**448 - 2**224 - 1), 2**448 - 2**224 - 1, 448, 39081).to_bytes(56, 'little')
+XBASE = {'X25519': (9).to_bytes(32, 'little'), 'X448': (5).to_bytes(56, 'little')}
+XFUNC = {'X25519': x25519, 'X448': x448}; XOID = {'X25519': '1.3.101.110', 'X448': '1.3.101.111'}; XNAME = {'X25519': 'curve25519', 'X448': 'curve448'}
+class XKey:
+    def __init__(s, kind, sk): s.kind = kind; s.sk = sk; s.pk = XFUNC[kind](sk, XBASE[kind])
+    def derive(s, peer):
+        out = XFUNC[s.kind](s.sk, peer)
+        if not any(out): raise ValueError('all-zero shared secret')
+        return out
+    def pkcs8(s): return der_seq(der_int(0), der_seq(der_oid(XOID[s.kind])), der_octets(der_octets(s.sk)))
